@@ -954,7 +954,7 @@ Section Final.
 End Final.
 
 (** ** from the generator: which clauses of [ir_closed] follow from [generate] *)
-From V Require Import Proofs.GenProofs Proofs.FidelityBase.
+From V Require Import Proofs.GenProofs Proofs.FidelityBase Model.Shape Proofs.ArityProofs Proofs.ResolveTotal.
 
 Lemma parse_ident_eq x y : parse_ident x = Ok y -> y = x.
 Proof. unfold parse_ident. destruct (ident_okb x); intros H; inversion H; reflexivity. Qed.
@@ -1010,4 +1010,153 @@ Proof.
     exists q, id', ir'. split; [exact Eq|]. split; [exact Gq|]. apply (Hnodes q id' ir' Eq Gq).
   - intros q Hq. destruct (generics_used _ _ _ _ _ Hc) as [Hu _]. exact (Hu q Hq).
   - rewrite Hparams. apply params_nodup.
+Qed.
+
+(** ** the full chain: generation, emission, independent reading, closedness *)
+Definition wrappers_fresh (s : settings) : Prop :=
+  (forall c, s_compact s = Some c -> hd_is (s_root s) c = false) /\
+  (forall b, s_bits s = Some b -> hd_is (s_root s) b = false).
+
+Theorem closedb_emitted r s teq m :
+  Proofs.ClosedProofs.root_fresh s -> starts_with "_" (s_root s) = false -> wrappers_fresh s ->
+  skeleton_consistent r s ->
+  generate r s teq = Ok m -> items_plain s m = true ->
+  keys_prefix_free m -> (forall p id ir, In (p, (id, ir)) m -> ir_tokenizable ir) ->
+  closedb (s_root s) (pmod_of_items s m) = true.
+Proof.
+  intros Hfresh Hus [Hwc Hwb] Hsk Hg Hp Hpf Htok.
+  apply (closedb_emitted_partial r s teq m Hfresh Hus Hg Hp Hpf).
+  destruct (generate_unique_names _ _ _ _ Hg) as [Hsorted _].
+  intros p id ir Hin f Hf. split; [apply (Htok p id ir Hin f Hf)|].
+  assert (Hget : items_get m p = Some (id, ir)) by (apply (items_get_In_iff m Hsorted); exact Hin).
+  destruct (generate_items_come_from_entries _ _ _ _ _ _ _ Hg Hget) as (t & flat & _ & _ & _ & _ & Hc).
+  intros x Hx. pose proof (create_type_ir_inv r s Hfresh _ _ _ Hc f Hf x Hx) as Hnode.
+  destruct x as [q|ptoks params|o|n o|es|q|i fl c|o st b]; try exact I.
+  - intros q id' ir' Eq Gq.
+    exact (arity_consistent r s teq m Hsk Hfresh Hg p id ir Hget f Hf ptoks params Hx q id' ir' Eq Gq).
+  - cbn [node_inv] in Hnode. destruct fl; [exact I|]. apply Hwc. exact Hnode.
+  - cbn [node_inv] in Hnode. apply Hwb. exact Hnode.
+Qed.
+
+Corollary emitted_parses_closed r s teq m toks :
+  Proofs.ClosedProofs.root_fresh s -> starts_with "_" (s_root s) = false -> wrappers_fresh s ->
+  skeleton_consistent r s ->
+  generate r s teq = Ok m -> emit_module s m = Ok toks -> items_plain s m = true ->
+  keys_prefix_free m -> (forall p id ir, In (p, (id, ir)) m -> ir_tokenizable ir) ->
+  exists pm, parse_module toks = Some pm /\ closedb (s_root s) pm = true.
+Proof.
+  intros Hfresh Hus Hw Hsk Hg He Hp Hpf Htok. exists (pmod_of_items s m).
+  split; [apply emit_parses; assumption|eapply closedb_emitted; eauto].
+Qed.
+
+(** ** emission succeeds only on tokenizable items *)
+Lemma Forall2_In_l {A B : Type} (R : A -> B -> Prop) l l' x :
+  Forall2 R l l' -> In x l -> exists y, In y l' /\ R x y.
+Proof.
+  induction 1 as [|a b l l' Hab Hl IH]; intros Hin; [destruct Hin|].
+  destruct Hin as [->|Hin]; [exists b; split; [left; reflexivity|exact Hab]|].
+  destruct (IH Hin) as (y & Hy & Hr). exists y. split; [right; exact Hy|exact Hr].
+Qed.
+
+Section EmitTok.
+  Variable s : settings.
+
+  Lemma field_tokens_tokenizable f t : field_tokens s f = Ok t -> tokenizable (fi_path f) = true.
+  Proof.
+    unfold field_tokens. intros H. apply bind_ok in H as (t0 & Ht0 & _).
+    exact (Proofs.ResolveTotal.tp_tokens_ok_inv _ _ _ Ht0).
+  Qed.
+
+  Lemma struct_fields_tokenizable k ph codec ft :
+    struct_field_tokens s k ph codec = Ok ft ->
+    forall f, In f (ckind_fields k) -> tokenizable (fi_path f) = true.
+  Proof.
+    destruct k as [|fs|fs]; cbn [struct_field_tokens ckind_fields]; intros H f Hin.
+    - destruct Hin.
+    - apply bind_ok in H as (l & Hl & _). apply mapM_ok_Forall2 in Hl.
+      apply in_map_iff in Hin as ([name f'] & <- & Hnf).
+      destruct (Forall2_In_l _ _ _ _ Hl Hnf) as (y & _ & Hy). cbn beta iota in Hy.
+      apply bind_ok in Hy as (t & Ht & _). cbn [snd]. exact (field_tokens_tokenizable _ _ Ht).
+    - apply bind_ok in H as (l & Hl & _). apply mapM_ok_Forall2 in Hl.
+      destruct (Forall2_In_l _ _ _ _ Hl Hin) as (y & _ & Hy). cbn beta in Hy.
+      apply bind_ok in Hy as (t & Ht & _). exact (field_tokens_tokenizable _ _ Ht).
+  Qed.
+
+  Lemma enum_fields_tokenizable k codec ft :
+    enum_field_tokens s k codec = Ok ft ->
+    forall f, In f (ckind_fields k) -> tokenizable (fi_path f) = true.
+  Proof.
+    destruct k as [|fs|fs]; cbn [enum_field_tokens ckind_fields]; intros H f Hin.
+    - destruct Hin.
+    - apply bind_ok in H as (l & Hl & _). apply mapM_ok_Forall2 in Hl.
+      apply in_map_iff in Hin as ([name f'] & <- & Hnf).
+      destruct (Forall2_In_l _ _ _ _ Hl Hnf) as (y & _ & Hy). cbn beta iota in Hy.
+      apply bind_ok in Hy as (t & Ht & _). cbn [snd]. exact (field_tokens_tokenizable _ _ Ht).
+    - apply bind_ok in H as (l & Hl & _). apply mapM_ok_Forall2 in Hl.
+      destruct (Forall2_In_l _ _ _ _ Hl Hin) as (y & _ & Hy). cbn beta in Hy.
+      apply bind_ok in Hy as (t & Ht & _). exact (field_tokens_tokenizable _ _ Ht).
+  Qed.
+
+  Lemma type_ir_tokens_tokenizable ir toks : type_ir_tokens s ir = Ok toks -> ir_tokenizable ir.
+  Proof.
+    unfold type_ir_tokens, ir_tokenizable. destruct (ti_kind ir) as [c|name docs vs]; intros H f Hin.
+    - apply bind_ok in H as (ft & Hft & _). cbn [kind_fields] in Hin.
+      exact (struct_fields_tokenizable _ _ _ _ Hft f Hin).
+    - apply bind_ok in H as (l & Hl & _). apply mapM_ok_Forall2 in Hl. cbn [kind_fields] in Hin.
+      apply in_flat_map in Hin as ([idx c] & Hic & Hin).
+      destruct (Forall2_In_l _ _ _ _ Hl Hic) as (y & _ & Hy). cbn beta iota in Hy.
+      apply bind_ok in Hy as (ft & Hft & _). cbn [snd] in Hin.
+      exact (enum_fields_tokenizable _ _ _ Hft f Hin).
+  Qed.
+
+  Lemma module_tokens_items : forall f name (es : list entry) toks,
+    module_tokens s f name es = Ok toks ->
+    (forall e, In e es -> fst e <> [] /\ List.length (fst e) <= f) ->
+    forall e, In e es -> exists t, type_ir_tokens s (snd (snd e)) = Ok t.
+  Proof.
+    induction f as [|f IH]; intros name es toks H Hes e He; [discriminate|].
+    cbn [module_tokens] in H. apply bind_ok in H as (mods & Hmods & H).
+    apply bind_ok in H as (tys & Htys & _). apply mapM_ok_Forall2 in Hmods, Htys.
+    destruct (Hes e He) as [Hne Hl]. destruct (fst e) as [|h [|a tl]] eqn:Ef; [congruence| |].
+    - assert (Hh : In e (here es)) by (apply here_In; split; [exact He|exists h; exact Ef]).
+      destruct (Forall2_In_l _ _ _ _ Htys Hh) as (y & _ & Hy). exists y. exact Hy.
+    - pose proof (child_names_intro es e h a tl He Ef) as Hh.
+      destruct (Forall2_In_l _ _ _ _ Hmods Hh) as (mt & _ & Hmt).
+      destruct (IH h (under h es) mt Hmt) with (e := (a :: tl, snd e)) as (t & Ht).
+      + intros e' He'. destruct (under_elim _ _ _ He') as (e0 & He0 & Hf0 & _ & Hne0).
+        split; [exact Hne0|]. destruct (Hes e0 He0) as [_ Hl0]. rewrite Hf0 in Hl0.
+        cbn [List.length] in Hl0. lia.
+      + apply (under_intro h es e a tl He Ef).
+      + exists t. exact Ht.
+  Qed.
+
+  Lemma emit_module_tokenizable m toks :
+    emit_module s m = Ok toks -> (forall e, In e m -> fst e <> []) ->
+    forall p id ir, In (p, (id, ir)) m -> ir_tokenizable ir.
+  Proof.
+    unfold emit_module. intros H Hne p id ir Hin.
+    destruct (module_tokens_items _ _ _ _ H) with (e := (p, (p, ir))) as (t & Ht).
+    - intros e He. apply in_map_iff in He as (e0 & <- & He0). cbn [fst]. split; [apply Hne; exact He0|].
+      pose proof (max_depth_ge m e0 He0). lia.
+    - apply in_map_iff. exists (p, (id, ir)). split; [reflexivity|exact Hin].
+    - cbn [snd] in Ht. exact (type_ir_tokens_tokenizable _ _ Ht).
+  Qed.
+End EmitTok.
+
+(** the chain without the tokenizability hypothesis *)
+Theorem emitted_closed r s teq m toks :
+  Proofs.ClosedProofs.root_fresh s -> starts_with "_" (s_root s) = false -> wrappers_fresh s ->
+  skeleton_consistent r s ->
+  generate r s teq = Ok m -> emit_module s m = Ok toks -> items_plain s m = true ->
+  keys_prefix_free m ->
+  exists pm, parse_module toks = Some pm /\ closedb (s_root s) pm = true.
+Proof.
+  intros Hfresh Hus Hw Hsk Hg He Hp Hpf.
+  apply (emitted_parses_closed r s teq m toks); try assumption.
+  apply (emit_module_tokenizable s m toks He).
+  destruct (generate_unique_names _ _ _ _ Hg) as [Hsorted _].
+  intros [p [id ir]] Hin. cbn [fst].
+  assert (Hget : items_get m p = Some (id, ir)) by (apply (items_get_In_iff m Hsorted); exact Hin).
+  destruct (generate_items_come_from_entries _ _ _ _ _ _ _ Hg Hget) as (t & flat & _ & Hpath & _ & _ & Hc).
+  destruct (create_type_ir_name_params _ _ _ _ _ Hc) as (Hne & _ & _). rewrite Hpath in Hne. exact Hne.
 Qed.
